@@ -19,11 +19,22 @@ fn main() {
         .or_else(|| std::env::var("VERIF_SEED").ok())
         .and_then(|s| s.parse().ok())
         .unwrap_or(0);
+    // watchdog: a hang is an infrastructure problem (exit 2), never a violation
+    let limit_s: u64 = std::env::var("VERIF_WATCHDOG_S").ok().and_then(|s| s.parse().ok()).unwrap_or(if tier == "thorough" { 3 * 3600 } else { 1200 });
+    std::thread::spawn(move || {
+        std::thread::sleep(std::time::Duration::from_secs(limit_s));
+        println!("INCONCLUSIVE: watchdog after {} s", limit_s);
+        std::process::exit(2);
+    });
     let code = match id.as_str() {
         "C11" | "C12" | "C14" | "C18" | "C19" => comp_check(&id, &tier, seed, &args),
         _ => sim_check(&id, &tier, seed, &args),
     };
     std::process::exit(code);
+}
+
+fn set_guard_for_rejudge(on: bool) {
+    vengine::world::set_guard(on);
 }
 
 fn comp_check(id: &str, tier: &str, seed: u64, args: &[String]) -> i32 {
@@ -79,6 +90,32 @@ fn comp_check(id: &str, tier: &str, seed: u64, args: &[String]) -> i32 {
     let cases: u32 = arg_val(args, "--cases").and_then(|s| s.parse().ok()).unwrap_or(if thorough { spec.thorough } else { spec.quick });
     let workers: usize = arg_val(args, "--workers").and_then(|s| s.parse().ok()).unwrap_or(if thorough { 16 } else { 8 });
     let out = run_comp(id, cases, seed, workers, thorough).unwrap();
+    let mut out = out;
+    let mut fuzz_info = serde_json::json!({"ran": false});
+    if thorough && out.failure.is_none() && std::env::var_os("VERIF_NO_FUZZ").is_none() {
+        let runs: u64 = arg_val(args, "--fuzz-runs").and_then(|s| s.parse().ok()).unwrap_or(2_000_000);
+        let fz = vengine::runner::fuzz_stage("fz_comp", id, runs, seed, &[], 4096, workers);
+        for a in &fz.artifacts {
+            if let Ok(bytes) = std::fs::read(a) {
+                crate::set_guard_for_rejudge(true);
+                let r = std::panic::catch_unwind(|| rejudge_fuzz_bytes(id, &bytes));
+                crate::set_guard_for_rejudge(false);
+                match r {
+                    Ok(Some((case, why))) => {
+                        out.failure = Some((why, case));
+                        break;
+                    }
+                    Ok(None) => {}
+                    Err(_) => {
+                        out.failure = Some((format!("panic while re-running fuzz artifact {:?}", a), serde_json::json!(null)));
+                        break;
+                    }
+                }
+            }
+        }
+        fuzz_info = serde_json::json!({"ran": fz.ran, "target": "fz_comp", "runs": fz.runs, "artifacts": fz.artifacts.len(), "wall_s": fz.wall_s, "note": fz.note});
+        println!("{} fuzz stage: {} runs, {} artifacts ({})", id, fz.runs, fz.artifacts.len(), fz.note);
+    }
     let samples = if out.samples.is_empty() { vec![serde_json::json!("no non-trivial case in this run")] } else { out.samples.clone() };
     let ev = serde_json::json!({
         "property_id": id, "tier": tier, "seed": seed, "level": "exploration",
@@ -89,6 +126,7 @@ fn comp_check(id: &str, tier: &str, seed: u64, args: &[String]) -> i32 {
             "samples": samples,
             "regressions_replayed": regressions,
             "workers": workers,
+            "fuzz_stage": fuzz_info,
         },
         "assumptions": [
             "the reference model in engine/src/comp_*.rs is correct (it is small and written from the documented semantics)",
@@ -190,19 +228,43 @@ fn sim_check(id: &str, tier: &str, seed: u64, args: &[String]) -> i32 {
     let cases: u32 = arg_val(args, "--cases").and_then(|s| s.parse().ok()).unwrap_or(if thorough { spec.thorough_cases } else { spec.quick_cases });
     let workers: usize = arg_val(args, "--workers").and_then(|s| s.parse().ok()).unwrap_or(if thorough { 16 } else { 8 });
     let ops = if thorough { spec.ops_thorough } else { spec.ops_quick };
-    let out = run_campaign(&spec, eval, &known, cases, ops, seed, workers);
+    let out = run_campaign(&spec, eval.clone(), &known, cases, ops, seed, workers);
     let violations = if out.failure.is_some() { 1 } else { 0 };
     let spec_options = spec.options;
-    let ev = evidence_json(id, tier, seed, spec.rule, &out.acc, out.wall_s, violations, serde_json::json!({"profile": spec.profile.name, "workers": workers, "regressions_replayed": regressions_replayed}));
-    let _ = std::fs::create_dir_all("/verif/evidence");
-    let _ = std::fs::write(format!("/verif/evidence/{}.json", id), serde_json::to_string_pretty(&ev).unwrap());
+
     println!(
         "{} {}: {} cases, {} distinct non-trivial, {} discarded (panic), {:.1}s",
         id, tier, out.acc.evaluations, out.acc.nontrivial.len(), out.acc.discarded_panics, out.wall_s
     );
+    // ---- thorough tier: coverage-guided stage on the same interpreter (libFuzzer, fixed number of runs)
+    let mut fuzz_info = serde_json::json!({"ran": false});
+    let mut failure_from_fuzz: Option<Failure> = None;
+    if thorough && out.failure.is_none() && std::env::var_os("VERIF_NO_FUZZ").is_none() {
+        let runs: u64 = arg_val(args, "--fuzz-runs").and_then(|s| s.parse().ok()).unwrap_or(240_000);
+        let fz = fuzz_stage("fz_cluster", id, runs, seed, &out.acc.seed_inputs, 40 + 6 * ops.1, workers);
+        let mut rejudged = 0;
+        for a in &fz.artifacts {
+            if let Ok(bytes) = std::fs::read(a) {
+                let raw = vengine::case::RawCase::from_bytes(&bytes);
+                let case = spec.profile.decode(&raw);
+                let o = eval(&case, false);
+                rejudged += 1;
+                if let Verdict::Fail(v, sig) = judge(id, is_c20, &o, &known) {
+                    let (case, v) = ddmin(id, is_c20, &**eval, &known, case, v, &sig);
+                    failure_from_fuzz = Some(Failure { case, raw, violation: v, sig });
+                    break;
+                }
+            }
+        }
+        fuzz_info = serde_json::json!({"ran": fz.ran, "target": "fz_cluster", "runs": fz.runs, "seed_corpus": out.acc.seed_inputs.len(), "artifacts": fz.artifacts.len(), "artifacts_rejudged": rejudged, "wall_s": fz.wall_s, "note": fz.note});
+        println!("{} fuzz stage: {} runs, {} artifacts ({})", id, fz.runs, fz.artifacts.len(), fz.note);
+    }
     // Known findings whose trigger the main campaign excludes by construction are
     // reproduced by a second small campaign with the exclusion switched off.
     let mut failure = out.failure;
+    if failure.is_none() {
+        failure = failure_from_fuzz;
+    }
     let mut known_seen = out.acc.known_hits.clone();
     if failure.is_none() {
         if let Some(ro) = spec.repro_options {
@@ -242,6 +304,13 @@ fn sim_check(id: &str, tier: &str, seed: u64, args: &[String]) -> i32 {
                 }
             }
         }
+    }
+    {
+        let violations = if failure.is_some() { 1 } else { violations };
+        let t_total = out.wall_s + fuzz_info["wall_s"].as_f64().unwrap_or(0.0);
+        let ev = evidence_json(id, tier, seed, spec.rule, &out.acc, t_total, violations, serde_json::json!({"profile": spec.profile.name, "workers": workers, "regressions_replayed": regressions_replayed, "fuzz_stage": fuzz_info}));
+        let _ = std::fs::create_dir_all("/verif/evidence");
+        let _ = std::fs::write(format!("/verif/evidence/{}.json", id), serde_json::to_string_pretty(&ev).unwrap());
     }
     for k in &known {
         if let Some(n) = known_seen.get(&k.signature) {
